@@ -1402,7 +1402,22 @@ def extract_ops(repo):
     return rows
 
 
-def builtin_kinds(mod):
+def c15_index_tolerant(repo):
+    """Operator table and builtin kinds WITHOUT the shape checks: used by the C15 check to keep
+    generating inputs for the failing-input search when the translation itself is refused."""
+    out = {'exec': dict(C15_EXEC), 'real': dict(C15_REAL), 'ops': [], 'builtin_kinds': {}}
+    try:
+        out['ops'] = extract_ops(repo)
+    except Unsupported:
+        pass
+    try:
+        out['builtin_kinds'] = builtin_kinds(PyModule(Path(repo) / 'sc3' / 'base' / 'builtins.py'), check=False)
+    except Unsupported:
+        pass
+    return out
+
+
+def builtin_kinds(mod, check=True):
     """name -> 'unop' | 'binop' | 'narop' for the `@scbuiltin.*` functions of builtins.py, after
     checking that the three decorators still have the dispatch shape the model assumes."""
     cls = mod.classes.get('scbuiltin')
@@ -1419,7 +1434,7 @@ def builtin_kinds(mod):
                   'return func(x, *args)'],
     }
     seen = set()
-    for m in cls.body:
+    for m in (cls.body if check else []):
         if isinstance(m, ast.FunctionDef) and m.name in expect:
             inner = [n for n in ast.walk(m) if isinstance(n, ast.FunctionDef) and n.name == 'scbuiltin_']
             if not inner:
@@ -1429,7 +1444,7 @@ def builtin_kinds(mod):
                 if got != expect[m.name]:
                     raise Unsupported(f'scbuiltin.{m.name}: wrapper body changed: {got}')
             seen.add(m.name)
-    if seen != set(expect):
+    if check and seen != set(expect):
         raise Unsupported(f'scbuiltin: decorators found {sorted(seen)}')
     kinds = {}
     for name, fs in mod.funcs.items():
